@@ -47,7 +47,9 @@ def _clauses(x, default_kind, prefix):
         x = list(x.items())
     out = []
     for i, c in enumerate(x):
-        if isinstance(c, str):
+        if isinstance(c, Clause):
+            out.append(c)
+        elif isinstance(c, str):
             out.append(Clause(f"{prefix}{i + 1}", c, default_kind))
         elif len(c) == 2:
             out.append(Clause(c[0], c[1], default_kind))
@@ -445,7 +447,7 @@ def apply_contract(eng, c: Contract, fv, args, kwargs, st: State):
         # requires
         for cl in c.requires:
             g = eval_clause(eng, s, cl.node)
-            oblige(eng, s, g, f"call:{fv.qualname}/{cl.name}", kind="auxiliary")
+            oblige(eng, s, g, f"call:{fv.qualname}/{cl.name}", kind=cl.kind or "auxiliary", tags=cl.tags)
             s.assume(g)
         if c.decreases is not None and eng.current_target == c.target:
             # recursive lemma call: measure must decrease and stay >= 0
@@ -596,30 +598,31 @@ def exec_loop_unrolled(eng, n, st: State):
                         if r is not None:
                             out.extend(r)
                             continue
-                    raise Unsupported(f"loop over a symbolic iterable needs an invariant (function {st.env.f.get('__fname__')})")
-                paths = [(s1, None)]
-                for x in items:
-                    nxt = []
-                    for s2, o in paths:
-                        if o is not None:
-                            nxt.append((s2, o))
-                            continue
-                        for s3, r in eng.assign(n.target, x, s2):
-                            if isinstance(r, Raised):
-                                nxt.append((s3, r))
-                                continue
-                            for s4, o4 in eng.exec_block(n.body, s3):
-                                if o4 is not None and not isinstance(o4, Raised) and o4[0] == "continue":
-                                    o4 = None
-                                nxt.append((s4, o4))
-                    paths = nxt
-                for s2, o in paths:
-                    if o is not None and not isinstance(o, Raised) and o[0] == "break":
-                        out.append((s2, None))
-                    elif o is None and n.orelse:
-                        out.extend(eng.exec_block(n.orelse, s2))
+                    sq = None
+                    if isinstance(it1, VSeq):
+                        sq = it1
+                    elif isinstance(it1, VRef) and s1.heap[it1.oid].kind == "slist":
+                        sq = VSeq(s1.heap[it1.oid].f["e"], s1.heap[it1.oid].f["elem"])
                     else:
-                        out.append((s2, o))
+                        hk = eng.hooks.get("iter_to_seq")
+                        sq = hk(eng, s1, it1) if hk is not None else None
+                    if sq is None or not eng.bounded_unroll:
+                        raise Unsupported(f"loop over a symbolic iterable needs an invariant (function {st.env.f.get('__fname__')})")
+                    # BOUNDED stand-in: no invariant is known for this loop, so it is executed exactly for every length up to
+                    # the bound; longer inputs are not explored and the run is reported as bounded, never as proved
+                    from .builtins import decode_elem
+                    K = eng.bounded_unroll
+                    eng.bounded_used.append(f"loop in {st.env.f.get('__fname__')}: symbolic sequence unrolled for lengths 0..{K} only")
+                    for ln in range(K + 1):
+                        s_len = s1.clone()
+                        s_len.assume(z3.Length(sq.e) == ln)
+                        if not smt.feasible(s_len.pc):
+                            continue
+                        s_len.note(f"bounded-len={ln}")
+                        vals = [decode_elem(eng, s_len, sq.e[i], sq.elem) for i in range(ln)]
+                        out.extend(_run_for_items(eng, n, s_len, vals))
+                    continue
+                out.extend(_run_for_items(eng, n, s1, items))
         return out
     # while: unroll while the guard is concretely decidable or path-feasible, up to a limit
     paths = [(st, None)]
@@ -647,6 +650,34 @@ def exec_loop_unrolled(eng, n, st: State):
         if not paths:
             return out
     raise Unsupported("while loop needs an invariant (unrolling did not terminate)")
+
+
+def _run_for_items(eng, n, s1, items):
+    out = []
+    paths = [(s1, None)]
+    for x in items:
+        nxt = []
+        for s2, o in paths:
+            if o is not None:
+                nxt.append((s2, o))
+                continue
+            for s3, r in eng.assign(n.target, x, s2):
+                if isinstance(r, Raised):
+                    nxt.append((s3, r))
+                    continue
+                for s4, o4 in eng.exec_block(n.body, s3):
+                    if o4 is not None and not isinstance(o4, Raised) and o4[0] == "continue":
+                        o4 = None
+                    nxt.append((s4, o4))
+        paths = nxt
+    for s2, o in paths:
+        if o is not None and not isinstance(o, Raised) and o[0] == "break":
+            out.append((s2, None))
+        elif o is None and n.orelse:
+            out.extend(eng.exec_block(n.orelse, s2))
+        else:
+            out.append((s2, o))
+    return out
 
 
 def exec_loop_invariant(eng, n, st: State, key, spec):
